@@ -212,6 +212,11 @@ def r4(ctx, prog, evalr, rep):
                            "residual comparison: numbers, arrays and objects are compared through the Queryable view before it "
                            "(C04-R6, re-evaluated in this run); what is left are strings, booleans, null and mixed kinds")
                     continue
+                if kind == "T" and c04.partial_eq_unreadable(prog, Evaluator(prog)):
+                    rep.unrecognised("C15-R4", "%s|PartialEq<%s>" % (shared.rk(prog, Evaluator(prog), prog.owner_fn(p)), kind), T.loc(x),
+                                     "`==` on `%s`: whether it is only the residual comparison (after numbers, arrays and objects were compared through "
+                                     "the Queryable view) could not be established, because C04-R6 could not read one of those branches" % g[0])
+                    continue
                 rep.bad("C15-R4", "%s|PartialEq<%s>" % (shared.rk(prog, Evaluator(prog), prog.owner_fn(p)), kind), T.loc(x),
                         "`==` on `%s` delegates to the data type's own PartialEq: the result does not depend only on the "
                         "Queryable view" % g[0])
